@@ -172,7 +172,14 @@ def _rule_R15(text, args):
     return re.subn(r"([(,]\s*)_\s*:", rep, text)
 
 
-RULES = {"R15": _rule_R15, "R6": _rule_R6, "R14": _rule_R14, "R13": _rule_R13, "R1": _rule_R1, "R4": _rule_R4, "R4rev": _rule_R4rev, "R11": _rule_R11, "R8": _rule_R8, "R7": _rule_R7,
+def _rule_R16(text, args):
+    # write!(f, "{name}.")  ->  write!(f, "{}.", name)   (inline format arguments -> positional, so that the macro
+    # bound to the trusted formatter stub can see the argument)
+    rx = re.compile(r'write!\(\s*(' + IDENT + r')\s*,\s*"\{(' + IDENT + r')\}([^"{}]*)"\s*\)')
+    return rx.subn(lambda m: 'write!(%s, "{}%s", %s)' % (m.group(1), m.group(3), m.group(2)), text)
+
+
+RULES = {"R16": _rule_R16, "R15": _rule_R15, "R6": _rule_R6, "R14": _rule_R14, "R13": _rule_R13, "R1": _rule_R1, "R4": _rule_R4, "R4rev": _rule_R4rev, "R11": _rule_R11, "R8": _rule_R8, "R7": _rule_R7,
          "R9": _rule_R9, "R12": _rule_R12}
 
 
